@@ -23,7 +23,7 @@ DESIGN_REF = "DESIGN.md section 6 C06"
 CLASSES = ["array", "linked_list", "dlinked_list"]
 NA = {"seq": ["OpSetSame", "OpSetPart", "OpSet", "OpMapGet", "OpMapRemove", "OpDelPair", "OpListing", "OpDelListing"],
       "vec": ["OpSetSame", "OpSetPart", "OpSet", "OpMapGet", "OpMapRemove", "OpDelPair", "OpListing", "OpDelListing", "OpGiveRefused"],
-      "map": ["OpGive", "OpGiveRefused", "OpTakeBack", "OpTakeFirst", "OpLend", "OpToArray", "OpFreeArray"]}
+      "map": ["OpNullProbe", "OpGive", "OpGiveRefused", "OpTakeBack", "OpTakeFirst", "OpLend", "OpToArray", "OpFreeArray"]}
 VALS = {2: "0,1", 3: "0,0,1", 4: "0,0,1,1"}      # handles carrying EQUAL values: identity vs equality; 0 = the empty text
 
 
@@ -89,6 +89,10 @@ def run(ctx):
     from checks import c07
     cnt = c07.record_and_validate(ctx, c07.harness(ctx), c07.fault_execs(random.Random(ctx.seed), ctx.tier == "quick"), tag="c06-mbuff-faults")
     ctx.cov["mbuff_fault_executions"] = cnt if isinstance(cnt, (int, dict)) else str(cnt)
+    # mbuff: the copy family (origins with seven kinds of hidden state x dup x first mutation of either object, incl. the
+    # self-aliased mutators append/prepend/splice(m, .., m)) recorded with the heap balance on and validated against MBuffObjTrace
+    cnt2 = c07.record_and_validate(ctx, c07.harness(ctx), c07.copy_execs(random.Random(ctx.seed + 1), ctx.tier == "quick"), tag="c06-mbuff-copies")
+    ctx.cov["mbuff_copy_executions"] = cnt2 if isinstance(cnt2, (int, dict)) else str(cnt2)
     ctx.cov["exhaustive"] = True
     ctx.cov["rule"] = "every transition of Ownership.tla in scope, once per container kind and class, with heap balance per script"
     ctx.assumptions += ["objects are spif_str; ASan build of the current tree (clang -O1)"]
